@@ -1005,7 +1005,7 @@ func TestVerifC19_RandomPermSubsets(t *testing.T) {
 		n := rapid.IntRange(0, 5).Draw(rt, "nperms")
 		for i := 0; i < n; i++ {
 			// the four real levels are drawn more often than the look-alikes
-			if rapid.IntRange(0, 3).Draw(rt, "real") > 0 {
+			if rapid.IntRange(0, 3).Draw(rt, "odd") < 3 {
 				list = append(list, auth.Permission(c19PermPool[rapid.IntRange(0, 3).Draw(rt, "perm")]))
 			} else {
 				list = append(list, auth.Permission(rapid.SampledFrom(c19PermPool).Draw(rt, "oddperm")))
@@ -1015,7 +1015,7 @@ func TestVerifC19_RandomPermSubsets(t *testing.T) {
 		channel := rapid.SampledFrom([]string{"header", "query"}).Draw(rt, "channel")
 		mode := modes[rapid.IntRange(0, 1).Draw(rt, "mode")]
 		transport := "http"
-		if m.chanOut || rapid.IntRange(0, 3).Draw(rt, "ws") == 0 {
+		if m.chanOut || rapid.IntRange(0, 3).Draw(rt, "ws") == 3 {
 			transport = "ws"
 		}
 		keys, ttl, valid := srvKeys, time.Duration(0), true
